@@ -2,11 +2,11 @@
 (set-info :status unknown)
 (declare-fun attempts!1 () Int)
 (assert
- (let (($x12 (not (<= 1 attempts!1))))
- (not $x12)))
+ (let (($x14 (not (<= 1 attempts!1))))
+ (not $x14)))
 (assert
  (= 1 attempts!1))
 (assert
- (let (($x33 (>= attempts!1 1)))
-(not $x33)))
+ (let (($x35 (>= attempts!1 1)))
+(not $x35)))
 (check-sat)
